@@ -54,6 +54,8 @@ pub mod patterns;
 pub mod state_machines;
 pub mod functions;
 pub mod repl;
+#[cfg(mech_verif)]
+pub mod verif_hooks;
 
 pub use crate::parser::*;
 //#[cfg(feature = "mechdown")]
